@@ -203,11 +203,8 @@ def to_tk(circuit):
         return bits, qubits
 
     def swap(i, j, unit_factory=Qubit):
-        old, tmp, new =\
-            unit_factory(i), unit_factory('tmp', 0), unit_factory(j)
-        tk_circ.rename_units({old: tmp})
-        tk_circ.rename_units({new: old})
-        tk_circ.rename_units({tmp: new})
+        old, new = unit_factory(i), unit_factory(j)
+        tk_circ.rename_units({old: new, new: old})
 
     def add_gate(qubits, box, offset):
         i_qubits = [qubits[offset + j] for j in range(len(box.dom))]
